@@ -12,6 +12,7 @@ import ZapVerif.Model.TransCoresX
 import ZapVerif.Model.TransLoggerX
 import ZapVerif.Model.TransLockedX
 import ZapVerif.Model.TransSweetenX
+import ZapVerif.Model.TransCaptureX
 import ZapVerif.Gen.TransProbe
 /-! `zvdrv CTR`: the interpreter side of the translator's differential test.  An op names a generated table and a
     function, gives arguments and receiver fields; the handler runs the GENERATED term in the GoMini interpreter
@@ -160,6 +161,7 @@ def tables : List (String × (Env → Ctx)) := [
   ("TransEscape", fun _ => ZapVerif.TransEscape.X),
   ("TransCE", fun _ => ZapVerif.TransCE.X),
   ("TransCEAdd", fun _ => ZapVerif.TransCEAdd.X),
+  ("TransCapture", fun e => ZapVerif.TransCapture.X ⟨match e.get "#st" with | some (.list l) => l | _ => []⟩),
   ("TransSweeten", fun _ => ZapVerif.TransSweeten.X sweetenPar),
   ("TransLocked", fun _ => ZapVerif.TransLocked.X lockedPar),
   ("TransLogger", fun e => ZapVerif.TransLogger.X (loggerPar e)),
@@ -182,7 +184,8 @@ def handle (op : Json) : R Json := do
   match run X (natD op "fuel" 100000) f args flds with
   | .done rs fl =>
     let hide := (arrD op "hide").toList.filterMap fun j => (j.getStr?.toOption).map fun s => s.toUTF8.toList
-    return obj [("res", Json.arr (rs.map jval).toArray), ("flds", jenv (hideEv hide fl))]
+    let drop := (arrD op "drop").toList.filterMap fun j => j.getStr?.toOption
+    return obj [("res", Json.arr (rs.map jval).toArray), ("flds", jenv ((hideEv hide fl).filter fun p => !drop.contains p.1))]
   | .panic p => return obj [("panic", Json.str (panicName p))]
   | .stuck w => return obj [("stuck", Json.str w)]
   | .oof => return obj [("oof", jbool true)]
